@@ -33,9 +33,9 @@ func init() {
 func c17(c *ctx) {
 	o := c.o
 	cases := [][]string{{"deadlock"}, {"orphan"}, {"hookvar"}, {"doubleterm"}}
-	nStress := 1
+	nStress := 3
 	if c.thorough() {
-		nStress = 4
+		nStress = 8
 	}
 	for i := 0; i < nStress; i++ {
 		cases = append(cases, []string{"stress", fmt.Sprint(i)})
@@ -460,9 +460,9 @@ func c17Stress(c *ctx) {
 	// user 2 runs out of upload credit somewhere in the middle: the commit's TERMINATE path is exercised too;
 	// it is topped up again now and then by the traffic worker
 	rig.putUser(2, 3, 400, 1<<50, 1<<40)
-	iters := 250
+	iters := 400
 	if c.thorough() {
-		iters = 1500
+		iters = 2500
 	}
 	var progress int64
 	var mu sync.Mutex
@@ -473,9 +473,17 @@ func c17Stress(c *ctx) {
 	}
 	var createdAll []cs
 	var wg sync.WaitGroup
-	worker := func(r *rng, f func(r *rng)) {
+	var admittersLeft int32 = 3
+	worker := func(r *rng, f func(r *rng), isAdmitter bool) {
 		defer wg.Done()
-		for i := 0; i < iters; i++ {
+		for i := 0; ; i++ {
+			if isAdmitter && i >= iters {
+				atomic.AddInt32(&admittersLeft, -1)
+				return
+			}
+			if !isAdmitter && atomic.LoadInt32(&admittersLeft) == 0 {
+				return
+			}
 			f(r)
 			atomic.AddInt64(&progress, 1)
 			if r.intn(4) == 0 {
@@ -530,9 +538,9 @@ func c17Stress(c *ctx) {
 		}
 	}
 	fs := []func(*rng){admit, admit, admit, closer, closer, upload, upload, traffic}
-	for _, f := range fs {
+	for i, f := range fs {
 		wg.Add(1)
-		go worker(c.r.fork(), f)
+		go worker(c.r.fork(), f, i < 3)
 	}
 	allDone := make(chan struct{})
 	go func() { wg.Wait(); close(allDone) }()
